@@ -130,6 +130,58 @@ def instance(t, v):
     return v
 
 
+def _fill_in_place(owner, n, ft, val):
+    """give field `n` of `owner` the value `val` WITHOUT handing it to a constructor: lists are filled in place,
+    sub-records field by field on the instance the default provided, scalars (immutable) are assigned"""
+    k = kind(ft)
+    cur = getattr(owner, n)
+    if k == "model" and cur is not None:
+        for fn, fft, _ in ft[2]:
+            _fill_in_place(cur, fn, fft, val[fn])
+    elif k in ("list", "any") and isinstance(cur, list):
+        cur[:] = instance(ft, val)
+    else:
+        setattr(owner, n, instance(ft, val))
+
+
+def instance_filled(t, v):
+    """the same value as `instance(t, v)` reached by another construction history: the constructor gets the
+    required fields only, every other field starts at its default and is filled in afterwards (append to the
+    default list, set the attributes of the default sub-record, assign the scalar) — what code that builds rows
+    step by step does (`row.choices.append(..)`, `edge.condition.value = ..`)"""
+    cls = mk_class(t)
+    inst = cls(**{n: instance(ft, v[n]) for n, ft, d in t[2] if d is REQ})
+    for n, ft, d in t[2]:
+        if d is not REQ:
+            _fill_in_place(inst, n, ft, v[n])
+    return inst
+
+
+def instance_assigned(t, v):
+    """every non-required field assigned as a whole after construction (`row.choices = [..]`)"""
+    cls = mk_class(t)
+    inst = cls(**{n: instance(ft, v[n]) for n, ft, d in t[2] if d is REQ})
+    for n, ft, d in t[2]:
+        if d is not REQ:
+            setattr(inst, n, instance(ft, v[n]))
+    return inst
+
+
+def instance_copied(t, v):
+    """a deep copy of the constructed instance (`m.copy(deep=True)`)"""
+    return instance(t, v).copy(deep=True)
+
+
+def instance_from_dict(t, v):
+    """`Model.parse_obj(plain dict)`: sub-records arrive as dicts and are built by validation"""
+    return mk_class(t).parse_obj(json.loads(json.dumps(v)))
+
+
+# construction histories of ONE value (C07: every instance, however it came to hold its value)
+HISTORIES = [("filled in place", instance_filled), ("assigned field by field", instance_assigned),
+             ("deep copy", instance_copied), ("parse_obj of the plain dict", instance_from_dict)]
+
+
 def mk_class(t):
     """dynamic ParserModel subclass for a ("model", …) description (cached by structure)"""
     from pydantic.v1 import create_model
